@@ -66,7 +66,16 @@ def wire_spec(spec):
                      lib.hx(spec.get('mode', '')), c01.wire_list([lib.hx(l) for l in spec['labelnames']]), extra])
 
 
+def plain(case):
+    """the case without its collection points (`['collect', age]` pseudo-ops); every kept op keeps its clock reading"""
+    if not any(op[0] == 'collect' for op in case['ops']):
+        return case
+    keep = [n for n, op in enumerate(case['ops']) if op[0] != 'collect']
+    return dict(case, ops=[case['ops'][n] for n in keep], clock=[case['clock'][n] for n in keep])
+
+
 def wire_line(case):
+    case = plain(case)
     specs = '|'.join(wire_spec(s) for s in case['specs']) or '.'
     clock = c01.wire_list([lib.fbits(t) for t in case['clock']])
     return 'c12 run %s %s %s %s' % (lib.hx(str(case['pid'])), clock, specs,
@@ -160,6 +169,21 @@ def flatten(fams, raw, meta=None):
                         float(s.value), len(s.labels)))
 
 
+AGES = ('now', '3s', '1h', 'keep')
+
+
+def age_files(d, age, t0):
+    """set the mtime of every store file: now / 3 s / 1 h before the start of the run / unchanged"""
+    import glob
+    import os
+    import time as _time
+    if age == 'keep':
+        return
+    t = {'now': _time.time(), '3s': t0 - 3.0, '1h': t0 - 3600.0}[age]
+    for f in glob.glob(os.path.join(d, '*.db')):
+        os.utime(f, (t, t))
+
+
 class Run:
     """both real back-ends on one case"""
 
@@ -173,6 +197,7 @@ class Run:
         self.sets = [set(), set()]       # (metric index, child key) with an accepted set since the child was created
         self.removed = [set(), set()]    # metric indices on which a remove/clear deleted a child
         self.live = None                 # {metric index: set(child keys)} in-process at the end
+        self.points = [[], []]           # snapshots at the intermediate collection points, per back-end
 
     def go(self):
         from prometheus_client import validation, values
@@ -187,6 +212,8 @@ class Run:
             # a small initial file size: the store crosses its capacity (and doubles) after a few entries, at many
             # alignments of the new entry against the end of the file
             mmap_dict._INITIAL_MMAP_SIZE = int(case['mmap_size'])
+        import time as _time
+        t0 = _time.time()
         try:
             with mpsim.Sim() as sim:
                 mp_cls = sim.new_class(case['pid'])
@@ -211,21 +238,39 @@ class Run:
                     except Exception as e:
                         self.err[side] = type(e).__name__
                         continue
+                    def collect_now(raw, meta, age, side=side, reg=reg, ms=ms):
+                        """one collection; on the file-backed side the store files are first AGED (their mtime set into
+                        the past: a long-running process) — the collector must not care"""
+                        if side == 0:
+                            flatten(reg.collect(), raw, meta)
+                            return {i: set((getattr(m, '_metrics', None) or {}).keys()) if m._labelnames else {()}
+                                    for i, m in enumerate(ms)}
+                        age_files(sim.dir, age, t0)
+                        flatten(MultiProcessCollector(CollectorRegistry(), sim.dir).collect(), raw, meta)
+                        return None
                     for n, op in enumerate(case['ops']):
                         sim.use(cls)
                         sim.clock.now = case['clock'][n]
+                        if op[0] == 'collect':
+                            pt = {'k': n, 'raw': [], 'meta': [], 'err': None, 'live': None,
+                                  'sets': set(self.sets[side]), 'removed': set(self.removed[side])}
+                            try:
+                                pt['live'] = collect_now(pt['raw'], pt['meta'], op[1])
+                                self.outs[side].append('ok')
+                            except Exception as e:
+                                pt['err'] = type(e).__name__
+                                self.outs[side].append(type(e).__name__)
+                            self.points[side].append(pt)
+                            continue
                         try:
                             do_op(ms, op, track)
                             self.outs[side].append('ok')
                         except Exception as e:
                             self.outs[side].append(type(e).__name__)
                     try:
+                        live = collect_now(self.raw[side], self.meta[side], case.get('final_age', 'keep'))
                         if side == 0:
-                            flatten(reg.collect(), self.raw[0], self.meta[0])
-                            self.live = {i: set((getattr(m, '_metrics', None) or {}).keys()) if m._labelnames else {()}
-                                         for i, m in enumerate(ms)}
-                        else:
-                            flatten(MultiProcessCollector(CollectorRegistry(), sim.dir).collect(), self.raw[1], self.meta[1])
+                            self.live = live
                     except Exception as e:
                         self.collect_err[side] = type(e).__name__
         finally:
@@ -483,6 +528,17 @@ def gen_growth_case(rng, mmap_size, children):
     return c
 
 
+def gen_points_case(rng):
+    """a history with >= 2 collections and operations between them; before each collection the store files are aged"""
+    c = gen_case(rng, rng.choice([4, 6, 8, 12, 20]), removal=(rng.random() < 0.3))
+    ops = list(c['ops'])
+    for _ in range(rng.choice([1, 1, 2, 3])):
+        ops.insert(rng.randrange(1, max(2, len(ops))) if len(ops) > 1 else len(ops), ['collect', rng.choice(AGES)])
+    c2 = make_case(c['specs'], ops, c['pid'], c['legacy'], rng)
+    c2['final_age'] = rng.choice(AGES)
+    return c2
+
+
 def mspec(kind, name='m', labelnames=(), mode='', buckets=None, help_text='doc'):
     s = {'kind': kind, 'name': name, 'labelnames': list(labelnames), 'legacy': True, 'help': help_text,
          'mode': mode if kind == 'gauge' else ''}
@@ -538,6 +594,12 @@ def corpus():
     # the sign of zero: a cell that only ever received -0.0 is 0.0 + -0.0 = 0.0 through the collector (numerically equal)
     cs.append(make_case([mspec('counter'), mspec('summary', 'req_x'), mspec('gauge', 'h1', mode='livesum')],
                         [call(0, None, 'inc', F(-0.0)), call(1, None, 'observe', F(-0.0)), call(2, None, 'set', F(-0.0))]))
+    # collect, operate, collect again on store files that look idle (aged into the past): the later collection is the later state
+    for a1, a2 in (('1h', '1h'), ('3s', 'keep'), ('1h', 'keep'), ('now', '1h')):
+        cc = make_case([mspec('counter', labelnames=['l'])], [call(0, [S('a')], 'inc', F(1.0)), ['collect', a1], call(0, [S('a')], 'inc', F(2.0)),
+                                                            call(0, [S('b')], 'inc', F(4.0))])
+        cc['final_age'] = a2
+        cs.append(cc)
     # summary; three metrics sharing nothing but the process; help text with every escape-relevant character
     cs.append(make_case([mspec('summary', 'm', ['l'], help_text='é "q" \\ \n x'), mspec('counter', 'req_x', ['l']),
                          mspec('gauge', 'h1', ['l'], mode='livesum')],
@@ -587,6 +649,44 @@ def hyp_ok_decls(case):
     return True
 
 
+class PointRun:
+    """the two collections at one intermediate collection point, in the shape `oracle` reads"""
+
+    def __init__(self, p0, p1):
+        self.err = [None, None]
+        self.outs = [[], []]
+        self.raw = [p0['raw'], p1['raw']]
+        self.meta = [p0['meta'], p1['meta']]
+        self.collect_err = [p0['err'], p1['err']]
+        self.sets = [p0['sets'], p1['sets']]
+        self.removed = [p0['removed'], p1['removed']]
+        self.live = p0['live']
+
+
+def oracle_points(case, run):
+    """the unchanged oracle at every intermediate collection point: file-backed collect = in-memory collect"""
+    out = []
+    if run.err[0] is not None or run.err[1] is not None:
+        return out
+    seen = set()
+    for p0, p1 in zip(run.points[0], run.points[1]):
+        for sig, what in oracle(case, PointRun(p0, p1)):
+            if sig not in seen:
+                seen.add(sig)
+                out.append((sig, 'at the collection after step %d (store files aged %r): %s' % (p0['k'], case['ops'][p0['k']][1], what)))
+    return out
+
+
+def all_fails(case, run, stats=None):
+    sigs = set()
+    out = []
+    for sig, what in oracle(case, run, stats) + oracle_points(case, run) + oracle_erased(case, run):
+        if sig not in sigs:
+            sigs.add(sig)
+            out.append((sig, what))
+    return out
+
+
 def erased(case):
     """the history with every remove()/clear() erased; each kept call keeps its clock reading"""
     keep = [n for n, op in enumerate(case['ops']) if op[0] == 'call']
@@ -597,7 +697,7 @@ def oracle_erased(case, run):
     """F28 characterised: the multiprocess collection of a history WITH removals must be the in-process collection of
     the history with its removals erased (the file-backed store behaves as if removals never happened).
     -> list of (signature, description)"""
-    if not any(op[0] != 'call' for op in case['ops']) or run.err[0] is not None or run.err[1] is not None:
+    if not any(op[0] in ('remove', 'clear') for op in case['ops']) or run.err[0] is not None or run.err[1] is not None:
         return []
     ec = erased(case)
     r2 = run_case(ec)
@@ -619,7 +719,7 @@ def shrink(case, sig):
         c = dict(case, ops=ops, clock=case['clock'][:len(ops)])
         try:
             r = run_case(c)
-            return any(s == sig for s, _ in oracle(c, r) + oracle_erased(c, r))
+            return any(s == sig for s, _ in all_fails(c, r))
         except Exception:
             return False
     ops = case['ops']
@@ -660,17 +760,18 @@ class Batch:
         ctx.case(json.dumps([case['specs'], case['ops']], sort_keys=True, default=str) if nontrivial else None,
                  {'specs': case['specs'], 'ops': case['ops'][:5], 'outcomes': run.outs[0][:5],
                   'series': len(run.raw[0])} if label not in ('alphabet',) else None)
-        erased_fails = oracle_erased(case, run)
-        if any(op[0] != 'call' for op in case['ops']):
+        if any(op[0] in ('remove', 'clear') for op in case['ops']):
             ctx.count('erased-history-oracle:checked')
-        for sig, what in oracle(case, run, self.limits) + erased_fails:
+        if run.points[0]:
+            ctx.count('collection-points:intermediate', len(run.points[0]))
+        for sig, what in all_fails(case, run, self.limits):
             ctx.count('oracle-fail:' + sig)
             self.nfail[sig] = self.nfail.get(sig, 0) + 1
             if self.nfail[sig] > 2:
                 continue
             small = shrink(case, sig)
             rs = run_case(small)
-            what2 = next((w for s, w in oracle(small, rs) + oracle_erased(small, rs) if s == sig), what)
+            what2 = next((w for s, w in all_fails(small, rs) if s == sig), what)
             ctx.fail(sig, what2, small)
 
     def flush(self):
@@ -705,6 +806,8 @@ def raw_diff(real, model):
 
 
 def compare_model(case, run, rep):
+    real_outs = [[o for o, op in zip(run.outs[side], case['ops']) if op[0] != 'collect'] for side in (0, 1)]
+    pops = plain(case)['ops']
     f = rep.split(' ')
     if run.err[0] is not None:
         if f[0] != 'err' or f[1] != run.err[0]:
@@ -713,14 +816,11 @@ def compare_model(case, run, rep):
     if f[0] != 'ok' or len(f) != 8:
         return 'constructors succeeded, model says %r' % rep[:80]
     outs = [] if f[1] == '.' else f[1].split(';')
-    if outs != run.outs[0]:
-        k = next((i for i in range(min(len(outs), len(run.outs[0]))) if outs[i] != run.outs[0][i]), 0)
-        return 'step %d %r: in-process %s, model %s' % (k, case['ops'][k] if k < len(case['ops']) else None,
-                                                       run.outs[0][k:k + 1], outs[k:k + 1])
-    if outs != run.outs[1]:
-        k = next((i for i in range(min(len(outs), len(run.outs[1]))) if outs[i] != run.outs[1][i]), 0)
-        return 'step %d %r: file-backed %s, model %s' % (k, case['ops'][k] if k < len(case['ops']) else None,
-                                                        run.outs[1][k:k + 1], outs[k:k + 1])
+    for side, name in ((0, 'in-process'), (1, 'file-backed')):
+        if outs != real_outs[side]:
+            k = next((i for i in range(min(len(outs), len(real_outs[side]))) if outs[i] != real_outs[side][i]), 0)
+            return 'step %d %r: %s %s, model %s' % (k, pops[k] if k < len(pops) else None, name,
+                                                    real_outs[side][k:k + 1], outs[k:k + 1])
     if run.collect_err[0] or run.collect_err[1]:
         if f[3] != 'E' + str(run.collect_err[1]):
             return 'real collect raised %r, model %r' % (run.collect_err, f[3][:40])
@@ -793,7 +893,9 @@ def run(ctx):
                 'positionally or by keyword, labels() alone, remove, clear; amounts ordinary, >2^53, tiny, negative, +-Inf, '
                 'NaN, ints, bools, on a bound and next to it) run against BOTH real back-ends and both Lean models; '
                 'every word of length 2 over C01\'s 12-call (two-label) and 9-call (unlabelled) alphabets per type and '
-                'gauge mode; histories with 20-120 labelled children (label values of varying length) under a patched '
+                'gauge mode; histories with 1-3 intermediate collections (>= 2 collections, operations between them), the store files\' '
+                'mtimes set to now / 3 s / 1 h in the past / left alone before each collection, the oracle evaluated at every collection point; '
+                'histories with 20-120 labelled children (label values of varying length) under a patched '
                 'mmap_dict._INITIAL_MMAP_SIZE of 256/512 and three with 760+ children at the real 64 KiB, so that the per-type '
                 'file crosses its capacity at many alignments; '
                 'random to length 200, half of the random histories without remove/clear; a case is '
@@ -821,6 +923,11 @@ def run(ctx):
     for k in range(n_real):
         b.add(gen_growth_case(rng, 0, 760 + 40 * k), 'growth-64KiB')
         b.flush()
+    for k in range(500 if ctx.tier == 'quick' else 6000):
+        b.add(gen_points_case(rng), 'collection-points')
+        if len(b.items) >= 300:
+            b.flush()
+    b.flush()
     n_short, n_long = (2500, 80) if ctx.tier == 'quick' else (30000, 1500)
     if ctx.broken:
         n_short, n_long = n_short * 2, n_long * 2
